@@ -369,9 +369,11 @@ def _r4(ctx):
     r = F.method(ctx, "mdcrd", "_read")
     wf = [const(n.left) for n in walk_no_nested(w) if isinstance(n, ast.BinOp) and isinstance(n.op, ast.Mod) and isinstance(const(n.left), str) and "f" in const(n.left)]
     fw = None
-    if wf:
-        it = [x for x in L.parse_percent(wf[0]) if x[0] == "field"]
-        fw = (it[0][1], it[0][2]) if it else None
+    for cand in wf:
+        it = [x for x in L.parse_percent(cand) if x[0] == "field" and x[3] in "fFeEgG"]
+        if it:
+            fw = (it[0][1], it[0][2])
+            break
     ctx.decide(fw == (8, 3), "C01-R4", w, rel, cls + ".write", "coordinate format %8.3f", "", "mdcrd coordinates are written as %s (AMBER specifies 8.3)" % (fw,))
     per_line = None
     for n in walk_no_nested(w):
